@@ -39,7 +39,15 @@ Has(e, k) == k \in DOMAIN e
 StOfJson(j) ==
   [facts |-> {<<x[1], x[2]>> : x \in Range(j.facts)},
    fl    |-> [g \in {<<x[1], x[2]>> : x \in Range(j.fl)} |->
-                 (CHOOSE x \in Range(j.fl) : <<x[1], x[2]>> = g)[3]]]
+                 (CHOOSE x \in Range(j.fl) : <<x[1], x[2]>> = g)[3]],
+   \* exact values (canonical text of the double) for the preservation properties
+   ex    |-> [g \in {<<x[1], x[2]>> : x \in Range(j.fl)} |->
+                 LET x == CHOOSE y \in Range(j.fl) : <<y[1], y[2]>> = g
+                 IN  IF Len(x) >= 4 THEN x[4] ELSE "?"]]
+
+\* the same value, bit for bit: copies, snapshots, chained states, text round trips
+HasEx(s) == "ex" \in DOMAIN s
+ExactEq(a, b) == StEq(a, b) /\ ((HasEx(a) /\ HasEx(b)) => ExSame(a.ex, b.ex))
 
 \* the serialized text must not list a fluent twice or contain unreadable items
 StJsonClean(j) ==
@@ -87,7 +95,7 @@ JObjects(e, st) ==
 
 JNewState(e, st) ==
   LET want == StOfJson(e.st)
-      s2   == Put(st, e.h, [kind |-> "state", st |-> want, hdr |-> e.out.st.hdr])
+      s2   == Put(st, e.h, [kind |-> "state", st |-> StOfJson(e.out.st), hdr |-> e.out.st.hdr])
   IN  IF ~Has(e.out, "st") THEN Fail("NewState:exception", st)
       ELSE IF StJsonClean(e.out.st) /\ StEq(want, StOfJson(e.out.st)) THEN Ok(s2)
       ELSE Fail("NewState:serialize", s2)
@@ -131,7 +139,7 @@ JParseProblem(e, st) ==
       isExc == Has(e.out, "exc")
       j == e.out.prob
       obsProj == [name |-> j.name, objs |-> Range(j.objs),
-                  facts |-> StOfJson(j.init).facts, fl |-> StOfJson(j.init).fl,
+                  facts |-> StOfJson(j.init).facts, fl |-> StOfJson(j.init).fl, ex |-> StOfJson(j.init).ex,
                   glits |-> {<<x[1], x[2]>> : x \in Range(j.goal_lits)},
                   gcmps |-> {FormulaOfTree(x) : x \in Range(j.goal_cmps)}]
       adm(dv) == LET exp == ParseProblem_Exp(D, e.tree, dv)
@@ -143,7 +151,7 @@ JParseProblem(e, st) ==
       \* where the text leaves the initial value of a fluent open, later events
       \* are judged against what was observed
       P == IF P0.init.conflict /\ ~isExc
-           THEN [P0 EXCEPT !.init = [facts |-> obsProj.facts, fl |-> obsProj.fl, shapeOk |-> TRUE, conflict |-> TRUE]]
+           THEN [P0 EXCEPT !.init = [facts |-> obsProj.facts, fl |-> obsProj.fl, ex |-> obsProj.ex, shapeOk |-> TRUE, conflict |-> TRUE]]
            ELSE P0
       s2 == IF isExc THEN st
             ELSE Put(st, e.h, [kind |-> "problem", P |-> P, u |-> UniverseOf(D, P.objs)])
@@ -153,9 +161,9 @@ JParseProblem(e, st) ==
 \* the initial state of a parsed problem, built the way the exporters build it
 JInitialState(e, st) ==
   LET want == st[e.p].P.init
-      s2 == Put(st, e.h, [kind |-> "state", st |-> [facts |-> want.facts, fl |-> want.fl], hdr |-> ":init"])
+      s2 == Put(st, e.h, [kind |-> "state", st |-> StOfJson(e.out.st), hdr |-> ":init"])
   IN  IF ~Has(e.out, "st") THEN Fail("InitialState:exception", st)
-      ELSE IF StJsonClean(e.out.st) /\ StEq([facts |-> want.facts, fl |-> want.fl], StOfJson(e.out.st)) /\ e.out.st.hdr = ":init"
+      ELSE IF StJsonClean(e.out.st) /\ ExactEq([facts |-> want.facts, fl |-> want.fl, ex |-> want.ex], StOfJson(e.out.st)) /\ e.out.st.hdr = ":init"
            THEN Ok(s2) ELSE Fail("InitialState:content", s2)
 
 JTypeMatrix(e, st) ==
@@ -198,7 +206,7 @@ TrajOfTree(x) ==
    steps |-> [i \in 1..n |-> [op |-> [act |-> HeadSym(x.c[2 * i].c[2]), args |-> SymVals(Rest(x.c[2 * i].c[2]))],
                                post |-> StateOfTree(x.c[2 * i + 1])]]]
 
-StOfParsed(ps) == [facts |-> ps.st.facts, fl |-> ps.st.fl]
+StOfParsed(ps) == [facts |-> ps.st.facts, fl |-> ps.st.fl, ex |-> ps.st.ex]
 
 JExportTrajectory(e, st) ==
   LET run == st[e.r].steps
@@ -206,12 +214,12 @@ JExportTrajectory(e, st) ==
   IN  IF Has(e.out, "exc") THEN (IF run = <<>> THEN Ok(st) ELSE Fail("ExportTrajectory:exception", st))
       ELSE IF /\ T.ok /\ Len(T.steps) = Len(run) /\ Len(run) > 0
               /\ T.first.st.shapeOk /\ ~T.first.st.conflict
-              /\ T.first.hdr = run[1].preHdr /\ StEq(StOfParsed(T.first), run[1].pre)
+              /\ T.first.hdr = run[1].preHdr /\ ExactEq(StOfParsed(T.first), run[1].pre)
               /\ \A i \in DOMAIN run :
                     /\ T.steps[i].op = run[i].op
                     /\ T.steps[i].post.st.shapeOk /\ ~T.steps[i].post.st.conflict
                     /\ T.steps[i].post.hdr = ":state"
-                    /\ StEq(StOfParsed(T.steps[i].post), run[i].post)
+                    /\ ExactEq(StOfParsed(T.steps[i].post), run[i].post)
            THEN Ok(st) ELSE Fail("ExportTrajectory:text", st)
 
 \* the observation parsed back from the exported text: same calls, same states, a chain
@@ -226,7 +234,8 @@ JParseTrajectory(e, st) ==
               /\ StJsonClean(e.out.comps[i].pre) /\ StJsonClean(e.out.comps[i].post)
               /\ comps[i].op = run[i].op
               /\ StEqD(comps[i].pre, run[i].pre, dv) /\ StEqD(comps[i].post, run[i].post, dv)
-        /\ \A i \in 1..(Len(comps) - 1) : StEq(comps[i + 1].pre, comps[i].post)
+              /\ ("RepeatedFluentArg" \notin dv => ExactEq(comps[i].pre, run[i].pre) /\ ExactEq(comps[i].post, run[i].post))
+        /\ \A i \in 1..(Len(comps) - 1) : ExactEq(comps[i + 1].pre, comps[i].post)
   IN  WithDevs(adm, "ParseTrajectory", st)
 
 ----------------------------------------------------------------------------
@@ -320,7 +329,7 @@ JGround(e, st) ==
 JCopyState(e, st) ==
   LET want == st[e.s]
       s2 == Put(st, e.h, [kind |-> "state", st |-> want.st, hdr |-> want.hdr])
-  IN  IF Has(e.out, "st") /\ StJsonClean(e.out.st) /\ StEq(want.st, StOfJson(e.out.st)) /\ e.out.st.hdr = want.hdr
+  IN  IF Has(e.out, "st") /\ StJsonClean(e.out.st) /\ ExactEq(want.st, StOfJson(e.out.st)) /\ e.out.st.hdr = want.hdr
       THEN Ok(s2) ELSE Fail("CopyState", s2)
 
 JStateEq(e, st) ==
@@ -337,12 +346,12 @@ OpEvent(e, st) == [d |-> st[e.op].d, u |-> st[e.op].u, act |-> st[e.op].act, arg
 \* Purity: every live handle still has the value the store holds for it
 SnapOk(h, v, st) ==
   IF h \notin DOMAIN st THEN TRUE
-  ELSE IF st[h].kind = "state" THEN StJsonClean(v) /\ StEq(st[h].st, StOfJson(v)) /\ v.hdr = st[h].hdr
+  ELSE IF st[h].kind = "state" THEN StJsonClean(v) /\ ExactEq(st[h].st, StOfJson(v)) /\ v.hdr = st[h].hdr
   ELSE IF st[h].kind = "run" THEN
          /\ Len(v) = Len(st[h].steps)
          /\ \A i \in DOMAIN v : /\ StJsonClean(v[i].pre) /\ StJsonClean(v[i].post)
-                                 /\ StEq(StOfJson(v[i].pre), st[h].steps[i].pre) /\ v[i].pre.hdr = st[h].steps[i].preHdr
-                                 /\ StEq(StOfJson(v[i].post), st[h].steps[i].post) /\ v[i].post.hdr = st[h].steps[i].postHdr
+                                 /\ ExactEq(StOfJson(v[i].pre), st[h].steps[i].pre) /\ v[i].pre.hdr = st[h].steps[i].preHdr
+                                 /\ ExactEq(StOfJson(v[i].post), st[h].steps[i].post) /\ v[i].post.hdr = st[h].steps[i].postHdr
   ELSE IF st[h].kind = "domain" THEN v = st[h].digest
   ELSE TRUE
 
